@@ -34,7 +34,7 @@ fn registry(id: &str) -> Option<PropDef> {
     Some(match id {
         "C01" => PropDef {
             level: "exploration",
-            subs: vec![random::<c01::RoundTrip>(), random::<c01::RoundTripLarge>()],
+            subs: vec![random::<c01::RoundTrip>(), random::<c01::RoundTripLarge>(), random::<c01::RoundTripBufio>()],
             assumptions: vec![
                 "ring-role clause asserted only where the signed area is exactly computable (dyadic coordinates) and non-zero",
                 "shapes are built through public constructors honouring their documented preconditions (polyline parts >= 2 points, non-empty first ring/patch)",
@@ -52,17 +52,17 @@ fn registry(id: &str) -> Option<PropDef> {
         },
         "C03" => PropDef {
             level: "exploration",
-            subs: vec![random::<c03::Foreign>(), random::<c03::ForeignLarge>()],
+            subs: vec![random::<c03::Foreign>(), random::<c03::ForeignLarge>(), random::<c03::ForeignBufio>()],
             assumptions: vec!["the reference encoder in vlib/refcodec.rs defines 'spec-conformant' (pinned to third-party fixtures at start-up)", "ring roles asserted only where the signed area is exactly computable and non-zero"],
         },
         "C14" => PropDef {
             level: "exploration",
-            subs: vec![random::<c03::IndexOnly>()],
+            subs: vec![random::<c03::IndexOnly>(), random::<c03::IndexOnlyBufio>()],
             assumptions: vec!["filler runs have even length because index offsets are expressed in 16-bit words"],
         },
         "C05" => PropDef {
             level: "exploration",
-            subs: vec![random::<c05::Boxes>()],
+            subs: vec![random::<c05::Boxes>(), random::<c05::BoxesLarge>()],
             assumptions: vec!["coordinates are never NaN (the property excludes NaN)", "no claim for the header M range of multipatch files or files containing no-data measures"],
         },
         "C06" => PropDef {
@@ -102,7 +102,7 @@ fn registry(id: &str) -> Option<PropDef> {
         },
         "C10" => PropDef {
             level: "exploration",
-            subs: vec![enumerated::<c09::OneType>()],
+            subs: vec![enumerated::<c09::OneType>(), enumerated::<c09::OneTypeLong>()],
             assumptions: vec!["complete within the stated history-length bound; the complete Writer has no finalize, so its histories contain writes only"],
         },
         "C11" => PropDef {
@@ -120,7 +120,7 @@ fn registry(id: &str) -> Option<PropDef> {
         },
         "C13" => PropDef {
             level: "fault_enumeration",
-            subs: vec![random::<c13::Sources>()],
+            subs: vec![random::<c13::Sources>(), random::<c13::SourcesGapped>()],
             assumptions: vec!["faults are injected at the Read/Seek trait calls of the source type handed to the reader; files come from the reference encoder (which also produces the library writer's layout)"],
         },
         "C15" => PropDef {
@@ -135,7 +135,7 @@ fn registry(id: &str) -> Option<PropDef> {
         },
         "C18" => PropDef {
             level: "exploration",
-            subs: vec![enumerated::<c18::SizeGrid>(), random::<c18::SizeRandom>()],
+            subs: vec![enumerated::<c18::SizeGrid>(), random::<c18::SizeRandom>(), random::<c18::SizeOfRead>()],
             assumptions: vec!["the dense grid is complete within its stated bounds; larger shapes are sampled"],
         },
         "C19" => PropDef {
